@@ -156,6 +156,7 @@ class BridgeRun:
         self.order: list[tuple[int, int]] = []
         self.ntag = 0
         self.after_stop = False
+        self.stop_task = None
 
     def log(self, **e):
         self.ev.append(e)
@@ -185,6 +186,9 @@ class BridgeRun:
             self.log(ev="Stray", dev=g, after_stop=False)
         else:
             self.got.append(g)
+            if self.cur.get("cbstop") and self.stop_task is None:
+                # "found my device, stop listening": the user's callback stops the bridge (stop() is a coroutine: scheduled)
+                self.stop_task = asyncio.ensure_future(self.bridges[br - 1].stop())
         if self.raise_next:
             _boom(self.raise_next)
 
@@ -363,6 +367,14 @@ class BridgeRun:
                 self.log(ev="Dgram", p=st["p"], b=list(data), handed=bool(handed), cbraise=bool(st.get("cbraise")),
                          delivered=self.got, warns=self.warn_n - w0, logs=self.logh.n - l0, excs=excs, burst=False, cut=False)
                 self.log(ev="Cycle")       # processing a datagram lets the loop cycle
+                if self.stop_task is not None:
+                    task, self.stop_task = self.stop_task, None
+                    try:
+                        await task
+                        self.log(ev="Stop", br=br, how="stop", raised=False)
+                    except Exception as x:  # noqa: BLE001
+                        self.log(ev="Stop", br=br, how="stop", raised=True, exc=type(x).__name__)
+                    self.obs(bridge, allports)
                 continue
             self.obs(bridge, allports)
         await vnet.settle(3)
